@@ -177,8 +177,53 @@ def storedUnits (c : Conv) (arch : Bytes) (name : Bytes) : Except String (Nat ×
       | _ => .error "blockindex"
   | _, _ => .error "tables"
 
-/-- read one file; mirrors the published layout: single unit; sectored with an offset table iff COMPRESS/IMPLODE;
+/-- read the file a block-table entry describes; `fetch off n` is the archive's bytes `[off, off+n)` or `none` when
+    out of bounds. Mirrors the published layout: single unit; sectored with an offset table iff COMPRESS/IMPLODE;
     otherwise plain sectors, each encrypted with key + index -/
+def readEntry (c : Conv) (codec : Codec) (fetch : Nat → Nat → Option Bytes) (ssz : Nat) (name : Bytes)
+    (pos csize fsize flags : Nat) : Except String Bytes :=
+  let b : BlockE := ⟨pos, csize, fsize, flags⟩
+  if !hasFlag flags FLAG_EXISTS then .error "notfound" else
+  let enc := hasFlag flags FLAG_ENCRYPTED
+  let comp := hasFlag flags FLAG_COMPRESS || hasFlag flags FLAG_IMPLODE
+  let key := fileKey c name b
+  if hasFlag flags FLAG_SINGLE_UNIT then
+    match fetch pos csize with
+    | none => .error "bounds"
+    | some raw => decodeUnit c codec (if enc then decBytes c raw key else raw) fsize comp
+  else if comp then
+    let n := (fsize + ssz - 1) / ssz
+    match fetch pos ((n + 1) * 4) with
+    | none => .error "bounds"
+    | some ot =>
+      let ot := if enc then decBytes c ot (key - 1) else ot
+      let offs := (List.range (n + 1)).map fun i => u32At ot (4 * i)
+      let rec sectors : Nat → Nat → Except String Bytes
+        | 0, _ => .ok []
+        | k+1, i =>
+          let s := offs.getD i 0; let e := offs.getD (i + 1) 0
+          if e < s then .error "offsets" else
+          match fetch (pos + s) (e - s) with
+          | none => .error "bounds"
+          | some raw =>
+            let expected := min ssz (fsize - i * ssz)
+            match decodeUnit c codec (if enc then decBytes c raw (key + BitVec.ofNat 32 i) else raw) expected true,
+                  sectors k (i + 1) with
+            | .ok d, .ok rest => .ok (d ++ rest)
+            | .error e, _ => .error e
+            | _, .error e => .error e
+      sectors n 0
+  else
+    match fetch pos fsize with
+    | none => .error "bounds"
+    | some raw =>
+      if !enc then .ok raw else
+      let rec secs : Nat → Bytes → Nat → Bytes
+        | 0, _, _ => []
+        | f+1, r, i => if r.isEmpty then [] else decBytes c (r.take ssz) (key + BitVec.ofNat 32 i) ++ secs f (r.drop ssz) (i + 1)
+      .ok (secs (raw.length + 1) raw 0)
+
+/-- read one file by name: header, both tables, hash lookup, block entry, then `readEntry` -/
 def readFile (c : Conv) (codec : Codec) (arch : Bytes) (name : Bytes) : Except String Bytes :=
   match parseHeader arch with
   | none => .error "header"
@@ -189,48 +234,7 @@ def readFile (c : Conv) (codec : Codec) (arch : Bytes) (name : Bytes) : Except S
     | none => .error "notfound"
     | some bi =>
       match bt[bi]? with
-      | some [pos, csize, fsize, flags] =>
-        let b : BlockE := ⟨pos, csize, fsize, flags⟩
-        if !hasFlag flags FLAG_EXISTS then .error "notfound" else
-        let enc := hasFlag flags FLAG_ENCRYPTED
-        let comp := hasFlag flags FLAG_COMPRESS || hasFlag flags FLAG_IMPLODE
-        let key := fileKey c name b
-        let ssz := sectorSize h
-        if hasFlag flags FLAG_SINGLE_UNIT then
-          match slice arch pos csize with
-          | none => .error "bounds"
-          | some raw => decodeUnit c codec (if enc then decBytes c raw key else raw) fsize comp
-        else if comp then
-          let n := (fsize + ssz - 1) / ssz
-          match slice arch pos ((n + 1) * 4) with
-          | none => .error "bounds"
-          | some ot =>
-            let ot := if enc then decBytes c ot (key - 1) else ot
-            let offs := (List.range (n + 1)).map fun i => u32At ot (4 * i)
-            let rec sectors : Nat → Nat → Except String Bytes
-              | 0, _ => .ok []
-              | k+1, i =>
-                let s := offs.getD i 0; let e := offs.getD (i + 1) 0
-                if e < s then .error "offsets" else
-                match slice arch (pos + s) (e - s) with
-                | none => .error "bounds"
-                | some raw =>
-                  let expected := min ssz (fsize - i * ssz)
-                  match decodeUnit c codec (if enc then decBytes c raw (key + BitVec.ofNat 32 i) else raw) expected true,
-                        sectors k (i + 1) with
-                  | .ok d, .ok rest => .ok (d ++ rest)
-                  | .error e, _ => .error e
-                  | _, .error e => .error e
-            sectors n 0
-        else
-          match slice arch pos fsize with
-          | none => .error "bounds"
-          | some raw =>
-            if !enc then .ok raw else
-            let rec secs : Nat → Bytes → Nat → Bytes
-              | 0, _, _ => []
-              | f+1, r, i => if r.isEmpty then [] else decBytes c (r.take ssz) (key + BitVec.ofNat 32 i) ++ secs f (r.drop ssz) (i + 1)
-            .ok (secs (raw.length + 1) raw 0)
+      | some [pos, csize, fsize, flags] => readEntry c codec (slice arch) (sectorSize h) name pos csize fsize flags
       | _ => .error "blockindex"
   | _, _ => .error "tables"
 
